@@ -13,7 +13,9 @@
 //!     * `detokA/I`   model detokenizer == real detokenizer byte for byte, on the valid streams and on
 //!                    mutated / random byte strings (outcome classes ok / err / panic).
 //! Case indices: Applesoft `idx = 0..`, Integer `idx = 100000..`, Merlin `idx = 200000..`,
-//! raw detokenizer streams `idx = 300000..`.
+//! raw detokenizer streams `idx = 300000..`; SESSIONS on one long-lived tokenizer object (accepted programs mixed with
+//! programs rejected on a late line; every result compared with a fresh object and with the Lean state machine of the
+//! object, `c14 sessI` / `c14 sessA`): Integer `idx = 500000..`, Applesoft `510000..`, Merlin `520000..`.
 use crate::util::*;
 use a2kit::lang::applesoft::tokenizer::Tokenizer as ATok;
 use a2kit::lang::integer::tokenizer::Tokenizer as ITok;
@@ -1275,6 +1277,226 @@ fn run_formats(ctx: &mut Ctx) {
     }
 }
 
+// ---- sessions: ONE tokenizer object for several programs (what the language servers do) -----------
+//
+// Case indices `idx = 500000..` Integer BASIC, `510000..` Applesoft, `520000..` Merlin.  A session is a sequence of
+// 2-6 calls on one object mixing accepted programs, programs rejected on their FIRST line, and programs rejected on a
+// LATER line (the early return leaves the lines tokenized so far in the object).  Oracle `object-reuse`: every result
+// equals what a FRESH object answers for the same input; the structure oracle (line numbers of the result = line
+// numbers of the source) is applied to what the reused object answered.  Model tie: the whole session is replayed
+// through the Lean state machine of the object (`c14 sessI` / `c14 sessA`, variant = what the translator reads from
+// the current source), which must produce the same sequence of results.
+
+fn show_tok(r: &Result<Result<Vec<u8>, String>, String>) -> String {
+    match r { Ok(Ok(t)) => format!("ok {}", hx(t)), Ok(Err(_)) => "err".to_string(), Err(_) => "panic".to_string() }
+}
+
+/// the line as the model's state machine sees it: `num:body` as the walk of that single line produced it, `R` if the
+/// tokenizer refuses the line on its own
+fn line_token_i(line: &str) -> Option<String> {
+    if line.trim().is_empty() { return None; }
+    Some(match tok_i(&format!("{}\n", line)) {
+        Ok(Ok(t)) => match walk_len_i(&t) { Some(w) if w.len() == 1 => format!("{}:{}", w[0].0, hx(&w[0].1)), _ => "R".to_string() },
+        _ => "R".to_string(),
+    })
+}
+fn line_token_a(line: &str) -> Option<String> {
+    if line.trim_start().is_empty() { return None; }
+    Some(match tok_a(&format!("{}\n", line), 2049) {
+        Ok(Ok(t)) => match split_a(&t) { Some(w) if w.len() == 1 => format!("{}:{}", w[0].0, hx(&w[0].1)), _ => "R".to_string() },
+        _ => "R".to_string(),
+    })
+}
+
+/// what kind of program a session call gets
+#[derive(Clone, Copy, PartialEq, Debug)]
+enum CallKind { Accepted, RejectedLateNumber, RejectedLateLong, RejectedFirst }
+
+fn pick_call_kind(r: &mut Rng, last: bool) -> CallKind {
+    // the last call of a session is an accepted program more often (it is the one that shows the contamination)
+    match r.below(if last { 14 } else { 10 }) { 0 | 1 | 2 => CallKind::RejectedLateNumber, 3 | 4 => CallKind::RejectedLateLong, 5 => CallKind::RejectedFirst, _ => CallKind::Accepted }
+}
+
+fn session_program_i(r: &mut Rng, kind: CallKind, ctx: &mut Ctx) -> (String, Vec<u16>) {
+    let nlines = 1 + r.below(6);
+    let mut nums = line_numbers(r, nlines, 32767);
+    if r.chance(60) { nums.sort(); nums.dedup(); }
+    let mut ig = IG::new(r.fork(1));
+    let mut lines: Vec<(u16, String)> = Vec::new();
+    for n in nums.iter() {
+        let mut l = ig.line(*n);
+        let mut tries = 0;
+        while tries < 6 && !(accepted_i(&l) && matches!(tok_i(&format!("{}\n", l)), Ok(Ok(_)))) { ctx.out.count("session/integer/line-regenerated"); l = ig.line(*n); tries += 1; }
+        if !(accepted_i(&l) && matches!(tok_i(&format!("{}\n", l)), Ok(Ok(_)))) { l = format!("{} END", n); }
+        lines.push((*n, l));
+    }
+    let bad_num = |r: &mut Rng, n: u16| format!("{} {}={}", n, r.pick(&["A", "X", "K9"]), r.range(32768, 99999));
+    let bad_long = |r: &mut Rng, n: u16| if r.chance(50) { format!("{} PRINT \"{}\"", n, "X".repeat(r.range(125, 160))) } else { format!("{} REM {}", n, "Z".repeat(r.range(125, 200))) };
+    let newnum = r.below(32767) as u16;
+    match kind {
+        CallKind::Accepted => {}
+        CallKind::RejectedFirst => { let l = if r.chance(50) { bad_num(r, newnum) } else { bad_long(r, newnum) }; lines.insert(0, (newnum, l)); }
+        CallKind::RejectedLateNumber => { let k = r.range(1, lines.len()); let l = bad_num(r, newnum); lines.insert(k, (newnum, l)); }
+        CallKind::RejectedLateLong => { let k = r.range(1, lines.len()); let l = bad_long(r, newnum); lines.insert(k, (newnum, l)); }
+    }
+    let mut src = String::new();
+    for (_, l) in &lines { src += l; src += if r.chance(8) { "\r\n" } else { "\n" }; if r.chance(4) { src += "\n"; } }
+    (src, lines.iter().map(|x| x.0).collect())
+}
+
+fn run_sessions_integer(ctx: &mut Ctx, rng: &mut Rng) {
+    let n = ctx.n(200, 8000);
+    for k in 0..n {
+        let idx = 500000 + k;
+        let mut r = rng.fork(idx as u64);
+        if !ctx.out.wants(idx) { continue; }
+        let ncalls = r.range(2, 6);
+        let mut shared = ITok::new();
+        let mut history: Vec<String> = Vec::new();
+        let mut req = String::from("c14 sessI");
+        let mut ans: Vec<String> = Vec::new();
+        let mut canon = String::new();
+        let mut late = false;
+        for c in 0..ncalls {
+            let kind = pick_call_kind(&mut r, c + 1 == ncalls);
+            let (src, nums) = session_program_i(&mut r, kind, ctx);
+            let rs = guarded(|| shared.tokenize(src.clone()).map_err(|e| e.to_string()));
+            let rf = tok_i(&src);
+            let case = format!("idx={} lang=integer call={} kind={:?} src={:?} reused={} fresh={} earlier-calls=[{}]", idx, c, kind, src, show_tok(&rs), show_tok(&rf), history.join(" ; "));
+            ctx.out.oracle(show_tok(&rs) == show_tok(&rf), "object-reuse", "c14/integer/object-reuse/result-differs", &case);
+            if let Ok(Ok(t)) = &rs {
+                // the property itself, on what the reused object answered
+                let walked = walk_len_i(t);
+                let ok = match &walked { Some(w) => w.iter().map(|x| x.0).collect::<Vec<_>>() == nums, None => false };
+                ctx.out.oracle(ok, "structure", if walked.is_none() { "c14/integer/object-reuse/line-length-wrong" } else { "c14/integer/object-reuse/line-numbers-wrong" }, &case);
+            }
+            if matches!(rf, Ok(Err(_))) && kind != CallKind::RejectedFirst && kind != CallKind::Accepted { late = true; }
+            ctx.out.count(&format!("session/integer/{:?}/{}", kind, match &rf { Ok(Ok(_)) => "ok", Ok(Err(_)) => "err", Err(_) => "panic" }));
+            if c > 0 { req += " |"; }
+            for l in src.lines() { if let Some(t) = line_token_i(l) { req += " "; req += &t; } }
+            ans.push(show_tok(&rs));
+            history.push(format!("{:?}", src));
+            canon += &src; canon.push('\u{1}');
+        }
+        ctx.out.q(&req, &ans.join(" | "));
+        ctx.out.count("session/integer");
+        ctx.out.case(canon.as_bytes(), late);
+    }
+}
+
+fn session_program_a(r: &mut Rng, kind: CallKind, ctx: &mut Ctx) -> (String, Vec<u16>) {
+    let nlines = 1 + r.below(6);
+    let mut nums = line_numbers(r, nlines, 63999);
+    if r.chance(60) { nums.sort(); nums.dedup(); }
+    let mut ag = AG { g: Gen::new(r.fork(1)) };
+    let mut lines: Vec<(u32, String)> = Vec::new();
+    for n in nums.iter() {
+        let mut l = ag.line(*n);
+        let mut tries = 0;
+        while tries < 6 && !accepted_a(&l) { ctx.out.count("session/applesoft/line-regenerated"); l = ag.line(*n); tries += 1; }
+        if !accepted_a(&l) { l = format!("{} END", n); }
+        lines.push((*n as u32, l));
+    }
+    // the only refusal of the Applesoft tokenizer: a primary line number that is not a u16
+    let bad = |r: &mut Rng| { let n = r.range(65536, 99999) as u32; (n, format!("{} {}", n, r.pick(&["PRINT", "END", "X=1", "REM NOPE"]))) };
+    match kind {
+        CallKind::Accepted => {}
+        CallKind::RejectedFirst => { let b = bad(r); lines.insert(0, b); }
+        _ => { let k = r.range(1, lines.len()); let b = bad(r); lines.insert(k, b); }
+    }
+    let mut src = String::new();
+    for (_, l) in &lines { src += l; src += if r.chance(8) { "\r\n" } else { "\n" }; if r.chance(4) { src += "\n"; } }
+    (src, lines.iter().filter(|x| x.0 < 65536).map(|x| x.0 as u16).collect())
+}
+
+fn run_sessions_applesoft(ctx: &mut Ctx, rng: &mut Rng) {
+    let n = ctx.n(150, 6000);
+    for k in 0..n {
+        let idx = 510000 + k;
+        let mut r = rng.fork(idx as u64);
+        if !ctx.out.wants(idx) { continue; }
+        let ncalls = r.range(2, 6);
+        let mut shared = ATok::new();
+        let mut history: Vec<String> = Vec::new();
+        let mut req = String::from("c14 sessA");
+        let mut ans: Vec<String> = Vec::new();
+        let mut canon = String::new();
+        let mut late = false;
+        for c in 0..ncalls {
+            let kind = pick_call_kind(&mut r, c + 1 == ncalls);
+            let (src, nums) = session_program_a(&mut r, kind, ctx);
+            // addresses near 64K make the link computation overflow: a panic in the middle of a program
+            let addr = pick_addr(&mut r);
+            let rs = guarded(|| shared.tokenize(&src, addr).map_err(|e| e.to_string()));
+            let rf = tok_a(&src, addr);
+            let case = format!("idx={} lang=applesoft call={} kind={:?} addr={} src={:?} reused={} fresh={} earlier-calls=[{}]", idx, c, kind, addr, src, show_tok(&rs), show_tok(&rf), history.join(" ; "));
+            ctx.out.oracle(show_tok(&rs) == show_tok(&rf), "object-reuse", "c14/applesoft/object-reuse/result-differs", &case);
+            if let Ok(Ok(t)) = &rs {
+                let ok = walk_links_a(t, addr as usize) == Some(nums.clone());
+                ctx.out.oracle(ok, "structure", "c14/applesoft/object-reuse/link-field-wrong", &case);
+            }
+            if !matches!(rf, Ok(Ok(_))) && kind != CallKind::RejectedFirst { late = true; }
+            ctx.out.count(&format!("session/applesoft/{:?}/{}", kind, match &rf { Ok(Ok(_)) => "ok", Ok(Err(_)) => "err", Err(_) => "panic" }));
+            if c > 0 { req += " |"; }
+            req += &format!(" {}", addr);
+            for l in src.lines() { if let Some(t) = line_token_a(l) { req += " "; req += &t; } }
+            ans.push(show_tok(&rs));
+            history.push(format!("{}:{:?}", addr, src));
+            canon += &src; canon.push('\u{1}');
+        }
+        ctx.out.q(&req, &ans.join(" | "));
+        ctx.out.count("session/applesoft");
+        ctx.out.case(canon.as_bytes(), late);
+    }
+}
+
+fn run_sessions_merlin(ctx: &mut Ctx, rng: &mut Rng) {
+    let n = ctx.n(80, 3000);
+    for k in 0..n {
+        let idx = 520000 + k;
+        let mut r = rng.fork(idx as u64);
+        if !ctx.out.wants(idx) { continue; }
+        let ncalls = r.range(2, 6);
+        let mut shared = MTok::new();
+        let mut history: Vec<String> = Vec::new();
+        let mut canon = String::new();
+        let mut late = false;
+        for c in 0..ncalls {
+            let crlf = r.chance(25);
+            let mut lines: Vec<String> = (0..1 + r.below(6)).map(|_| merlin_line(&mut r)).collect();
+            let kind = pick_call_kind(&mut r, c + 1 == ncalls);
+            let long = |r: &mut Rng| if r.chance(50) { format!("* {}", "X".repeat(r.range(127, 180))) } else { format!("LOOP LDA #$00 ; {}", "Y".repeat(r.range(127, 180))) };
+            match kind {
+                CallKind::Accepted => {}
+                CallKind::RejectedFirst => { let l = long(&mut r); lines.insert(0, l); }
+                _ => { let k = r.range(1, lines.len()); let l = long(&mut r); lines.insert(k, l); }
+            }
+            let src = lines.join(if crlf { "\r\n" } else { "\n" }) + if crlf { "\r\n" } else { "\n" };
+            let rs = guarded(|| shared.tokenize(src.clone()).map_err(|e| e.to_string()));
+            let rf = tok_m(&src);
+            let case = format!("idx={} lang=merlin call={} kind={:?} src={:?} reused={} fresh={} earlier-calls=[{}]", idx, c, kind, src, show_tok(&rs), show_tok(&rf), history.join(" ; "));
+            ctx.out.oracle(show_tok(&rs) == show_tok(&rf), "object-reuse", "c14/merlin/object-reuse/result-differs", &case);
+            if !matches!(rf, Ok(Ok(_))) && kind != CallKind::RejectedFirst { late = true; }
+            ctx.out.count(&format!("session/merlin/{:?}/{}", kind, match &rf { Ok(Ok(_)) => "ok", Ok(Err(_)) => "err", Err(_) => "panic" }));
+            if let (Ok(Ok(t)), true) = (&rs, accepted_m(&src)) {
+                // listing through the reused object vs a fresh one.  `detokenize` ends lines with the separator the LAST
+                // `tokenize` saw (documented carry, design/C14.md): compared modulo CRLF/LF, differences counted
+                let shape = t.iter().all(|b| *b >= 0x80 || *b == 0x20) && t.last() == Some(&0x8d) && t.iter().filter(|b| **b == 0x8d).count() == src.lines().count();
+                ctx.out.oracle(shape, "structure", "c14/merlin/object-reuse/stream-shape-wrong", &case);
+                let ds = guarded(|| shared.detokenize(t).map_err(|e| e.to_string()));
+                let df = detok_m(t);
+                let norm = |x: &Result<Result<String, String>, String>| match x { Ok(Ok(s)) => format!("ok {}", s.replace("\r\n", "\n")), Ok(Err(_)) => "err".to_string(), Err(_) => "panic".to_string() };
+                ctx.out.oracle(norm(&ds) == norm(&df), "object-reuse", "c14/merlin/object-reuse/listing-differs", &case);
+                if let (Ok(Ok(a)), Ok(Ok(b))) = (&ds, &df) { if a != b { ctx.out.count("session/merlin/listing-line-separator-carried"); } }
+            }
+            history.push(format!("{:?}", src));
+            canon += &src; canon.push('\u{1}');
+        }
+        ctx.out.count("session/merlin");
+        ctx.out.case(canon.as_bytes(), late);
+    }
+}
+
 pub fn run(ctx: &mut Ctx) {
     if let Ok(f) = std::env::var("A2V_C14_PROBE") {
         // debugging aid: one source line per line of the file, prefixed by `A ` / `I ` / `M `
@@ -1301,4 +1523,10 @@ pub fn run(ctx: &mut Ctx) {
     run_merlin(ctx, &mut rm);
     let mut rr = rng.fork(4);
     run_raw(ctx, &mut rr);
+    let mut rs = rng.fork(5);
+    run_sessions_integer(ctx, &mut rs);
+    let mut rs = rng.fork(6);
+    run_sessions_applesoft(ctx, &mut rs);
+    let mut rs = rng.fork(7);
+    run_sessions_merlin(ctx, &mut rs);
 }
